@@ -21,7 +21,8 @@ RULE = (
     "enumerated state set. 'history': Hypothesis histories (n <= 8, <= 30 ops, client writes parsed from wire text half of the "
     "time) on one live instance. Oracle: rule invariants on the after-state AND on every setSwitchVector published during the op; "
     "a switch turned On by a single assignment is On afterwards and in the message published for it; AnyOfMany changes only named "
-    "switches; the last published message equals the final state. Non-trivial: the op turns Off the only On switch, or names >= 2 "
+    "switches; the last published message equals the final state. 'hidden': histories that also hide and show switches (element-level "
+    "enabled flag): the rule is asserted over all switches of the property, hidden ones included. Non-trivial: the op turns Off the only On switch, or names >= 2 "
     "switches, or uses selected_value(s). Transitions are distinct by construction."
 )
 ASSUMPTIONS = ["for OneOfMany the guarantee 'exactly one On' is asserted from states that have one On (as the statement says); from zero On, at most one"]
@@ -240,6 +241,43 @@ def check_history(case):
     return Info(nontrivial=nt and len(case["ops"]) >= 2, labels=[case["rule"], f"n={n}"])
 
 
+def check_hidden(case):
+    """Histories in which switches are also hidden and shown again (element-level `enabled`): a hidden switch is still a
+    switch of the property, so the rule holds over ALL switches. case: {"rule", "n", "on", "ops"} with ["hide", i, bool] ops."""
+    n = case["n"]
+    on = sorted({i % n for i in case["on"]})
+    if case["rule"] != "AnyOfMany":
+        on = on[:1]
+    rig = Rig(case["rule"], n, on)
+    hidden = set()
+    nt = False
+    for op in case["ops"]:
+        if op[0] == "hide":
+            i = op[1] % n
+            getattr(rig.vec, f"e{i}").enabled = not op[2]
+            (hidden.add if op[2] else hidden.discard)(i)
+            continue
+        if not hidden:
+            transition(rig, op)
+            continue
+        before = rig.state()
+        try:
+            rig.apply(op)
+        except Exception as e:  # noqa
+            raise Failure(f"raises:{op[0]}:{type(e).__name__}:hidden", f"{case['rule']} n={n} state={before} hidden={sorted(hidden)} op={op}: {type(e).__name__}: {e}")
+        after = rig.state()
+        ctx = f"{case['rule']} n={n} before={before} hidden={sorted(hidden)} op={op} after={after}"
+        try:
+            check_rule_state(case["rule"], sum(before), after, "state-with-hidden-switch")
+        except Failure as f:
+            raise Failure(f.sig, f"{ctx}: {f.msg}")
+        names = named(op, n)
+        if names and len(names) == 1 and names[0][1] and not after[names[0][0]]:
+            raise Failure("turned-on-not-on:hidden", ctx)
+        nt = nt or any(before[i] for i in hidden)
+    return Info(nontrivial=nt, labels=[case["rule"], f"n={n}", "hidden-switch-was-on" if nt else "hidden-switch-off"])
+
+
 idx = st.integers(0, 7)
 op_st = st.one_of(
     st.tuples(st.just("client"), st.lists(st.tuples(idx, st.booleans()).map(list), min_size=1, max_size=4), st.booleans()).map(list),
@@ -250,7 +288,11 @@ op_st = st.one_of(
 )
 history = st.fixed_dictionaries({"rule": st.sampled_from(gen.RULES), "n": st.integers(1, 8), "on": st.lists(idx, max_size=3), "ops": st.lists(op_st, min_size=1, max_size=30)})
 
-SUBCHECKS = {"graph": check_graph_block, "history": check_history}
+hide_op = st.tuples(st.just("hide"), idx, st.booleans()).map(list)
+hidden_history = st.fixed_dictionaries({"rule": st.sampled_from(gen.RULES), "n": st.integers(2, 5), "on": st.lists(idx, max_size=3),
+                                        "ops": st.lists(op_st | hide_op, min_size=2, max_size=25)})
+
+SUBCHECKS = {"graph": check_graph_block, "history": check_history, "hidden": check_hidden}
 
 
 def graph_blocks(tier):
@@ -265,3 +307,4 @@ def run(ctx):
     cnt = ctx.each("graph", graph_blocks(ctx.tier), check_graph_block, stop_after=5, timeout=150)
     ctx.exhaustive["graph"] = {"complete": True, "n_states": cnt, "bound": "3 rules x n<=5, pairs (quick) / n<=6, triples (thorough); every (state, op) transition"}
     ctx.hyp("history", history, check_history, ctx.scale(300, 5000))
+    ctx.hyp("hidden", hidden_history, check_hidden, ctx.scale(400, 5000))
